@@ -48,7 +48,7 @@ verdict), "G" = generator of an input / fault space, "A" = acceptor used for tra
 | `registry` | `Registry` (P: sequential reference model with the statement's clauses as invariants), `RegistRace` (I: two concurrent Regist / GetOrCreate), `RaceTrace` (A) | histories (exhaustive, edge cover, walks), race schedules | `harness/registry` | C05 (and C03's registry leg) |
 | `rtsp` | `RtspSession` (P/I: 20 request kinds x state) | edge cover + walks | `harness/rtspsess` against a live server | C12 |
 | `wire` | `WriteLock` (I: lock protocol, negative controls NoFrameLock / NoRespLock), `BufferedWrite` (I: the shared write buffer at copy / advance, emit / reset grain; negative control flush outside the lock), `WireTrace` (A) | gates at `frame.prefix` / `flush.written` | `harness/c13`, tcp + websocket | C13 |
-| `auth` | `Auth` (P: reference monitor over users, rights as last saved, tokens) | edge cover | `harness/c11`, nine entry points of a live server | C11 |
+| `auth` | `Auth` (P: reference monitor over users, rights as last saved, tokens), `WspJoin` (I/P: WSP channel ids, INIT / store / JOIN; negative controls unbound JOIN / answer before store) | edge cover | `harness/c11`, nine entry points of a live server | C11 |
 | `pull` | `Pull` (P/I: 1940 camera plans) | plan enumeration | `harness/c20` scripted camera | C20 |
 | `depack` | `Depack` (P: must / may receiver over packetisation and fault plans) | plan enumeration | `harness/c06` independent packetiser | C06 |
 | `tsout` | `TsCases` (G), `TsOut` (A) | case enumeration + trace validation | `harness/c09` independent demultiplexer | C09 |
@@ -225,7 +225,8 @@ tiers = '''
 
 `bin/check <ID> quick` is meant for every change (measured wall times on 16 cores, unchanged tree): C01 75 s,
 C02 80-100 s, C03 100-127 s, C04 45-50 s, C05 67 s, C06 48 s, C07 32 s, C08 19 s, C09 7 s, C10 80 s, C11 30 s,
-C12 11 s, C13 12 s, C14 80 s, C15 24 s, C16 15 s, C17 22 s, C18 55 s, C19 24 s, C20 22 s. `thorough` uses the larger
+C12 11 s, C13 12 s, C14 80 s, C15 24 s, C16 15 s, C17 22 s, C18 55 s, C19 24 s, C20 22 s. `thorough` (measured: C05 915 s, C06 64 s, C07 62 s, C08 142 s, C09 9 s, C10 370 s, C11 317 s, C12 58 s, C13 92 s, C14 144 s,
+C15 59 s, C16 49 s, C17 391 s, C18 508 s, C19 248 s, C20 406 s) uses the larger
 configs named in each check (all scenarios, all pairs / triples, more walks, repetitions of schedule-dependent
 legs). Every run takes `VERIF_SEED` (default 1) for sampling, payload bytes and simulation seeds; evidence files
 record the TLC runs (config, states, wall time), the numbers of behaviours / cases / records and samples of them.
